@@ -177,8 +177,9 @@ func reorgScenarioOpts(c *pbt.C, id string, check func(c *pbt.C, key string, b, 
 		if _, err := cn.Bridge.InsertChain(a2.Range(2, topY)); err != nil {
 			c.Failf(id+"/setup", "reference node refused prefix+Y: %v", err)
 		}
-		check(c, id, b, cn)
-		// pool of B must be a pool C can have: C accepts every block of it
+		// pool of B must be a pool C can have: C accepts every block of it (a pooled block of X that acknowledges a
+		// momentum at or below the fork point, on an account the abandoned momentums did not touch, legitimately stays;
+		// the reference node gets the same gossip before the two are compared: query answers count pooled blocks)
 		poolToC := func() int {
 			bp := b.Chain.GetAllUncommittedAccountBlocks()
 			for _, blk := range bp {
@@ -199,6 +200,7 @@ func reorgScenarioOpts(c *pbt.C, id string, check func(c *pbt.C, key string, b, 
 		if poolToC() > 0 {
 			c.Class("pool-survived-switch")
 		}
+		check(c, id, b, cn)
 		// B produces the next momentum itself (from whatever its pool holds after the switch): every
 		// other honest node must accept it
 		bProduces := func(others ...*sim.Node) {
